@@ -88,6 +88,11 @@ func projectObject(k store.Key, o store.Obj) string {
 			conds[c.Type] = c.Status + "/" + c.Reason
 		}
 	}
+	if isObjectSetKind(store.Str(o, "kind")) && store.Str(o, "spec", "lifecycleState") == "Archived" && conds["Archived"] == "True" {
+		// what else an archived revision still carries (InTransition, Paused, Succeeded) is whatever its
+		// last status as an active revision happened to say; only Archived is maintained from here on
+		conds = map[string]string{"Archived": "True"}
+	}
 	p["conditions"] = conds
 	sp := store.Copy(o)
 	spec, _ := sp["spec"].(map[string]any)
